@@ -8,6 +8,7 @@ THEOREMS = [
     "Lou.C04.fwd_ret0_iff", "Lou.C04.fwd_ret0_logged", "Lou.C04.inlen_negative_witness",
     "Lou.C04.idEngine_ok", "Lou.C04.back_lengths", "Lou.C04.back_ret0_iff",
             "Lou.ModelEngine.model_fwd_lengths", "Lou.ModelEngine.model_back_lengths",
+            "Lou.ModelEngine.callFwd_eq", "Lou.ModelEngine.callBack_eq", "Lou.ModelEngine.whole_call_fwd_lengths",
 ]
 
 CLAIM = dict(
